@@ -30,6 +30,11 @@ os.environ.setdefault("XLA_FLAGS", "--xla_cpu_multi_thread_eigen=false intra_op_
 import argparse  # noqa: E402
 import json  # noqa: E402
 
+# seams that have to be in place before the code under test is imported
+from simkit import simpool as _simpool  # noqa: E402
+
+_simpool.patch_blocking_queues()
+
 
 def main(argv):
     if argv and argv[0] == "--selfcheck":
